@@ -39,7 +39,7 @@ fn mk_mode_r<'a>(mode: u8, pk_s: u16, bundle: PskBundle<'a>) -> OpModeR<'a, M> {
 macro_rules! seal_equiv_harness {
     ($name:ident, $mode:expr) => {
         #[kani::proof]
-        #[kani::unwind(34)]
+        #[kani::unwind(20)]
         #[kani::stub(zeroize::optimization_barrier, noop_barrier)]
         pub fn $name() {
             const MODE: u8 = $mode;
@@ -84,7 +84,7 @@ macro_rules! seal_equiv_harness {
         }
     };
 }
-//@h name=c14_seal_equiv_base tier=quick mode=func timeout=1800 desc="single_shot_seal_in_place_detached == setup_sender then seal_in_place_detached with the same randomness, Base mode: same enc, same tag, same buffer, or the same error (EncapError, buffer untouched)" bounds="all RNG outputs, pkR; info 0..=2 B, plaintext 0..=3 B, aad 0..=2 B; model suite with ideal AEAD; unwind 34"
+//@h name=c14_seal_equiv_base tier=quick mode=func timeout=1800 desc="single_shot_seal_in_place_detached == setup_sender then seal_in_place_detached with the same randomness, Base mode: same enc, same tag, same buffer, or the same error (EncapError, buffer untouched)" bounds="all RNG outputs, pkR; info 0..=2 B, plaintext 0..=3 B, aad 0..=2 B; model suite with ideal AEAD; unwind 20"
 seal_equiv_harness!(c14_seal_equiv_base, 0);
 //@h name=c14_seal_equiv_authpsk tier=quick mode=func timeout=1800 desc="same in AuthPsk mode (sender key pair and PSK bundle)" bounds="as Base plus all skS, 1-byte psk and psk_id"
 seal_equiv_harness!(c14_seal_equiv_authpsk, 3);
@@ -96,7 +96,7 @@ seal_equiv_harness!(c14_seal_equiv_auth, 2);
 macro_rules! open_equiv_harness {
     ($name:ident, $mode:expr) => {
         #[kani::proof]
-        #[kani::unwind(34)]
+        #[kani::unwind(20)]
         #[kani::stub(zeroize::optimization_barrier, noop_barrier)]
         pub fn $name() {
             const MODE: u8 = $mode;
@@ -159,7 +159,7 @@ macro_rules! open_equiv_harness {
         }
     };
 }
-//@h name=c14_open_equiv_base tier=quick mode=func timeout=2400 desc="single_shot_open_in_place_detached == setup_receiver then open_in_place_detached, Base mode: identical Result (Ok with the same plaintext, DecapError for a bad encapsulated key, OpenError for a bad tag) on the honest message and on arbitrary adversarial (enc, ciphertext, tag); the honest message opens to the plaintext" bounds="all RNG outputs, skR, delivered enc/ct/tag; info 0..=2 B, plaintext 0..=3 B, aad 0..=2 B; model suite with ideal AEAD; unwind 34"
+//@h name=c14_open_equiv_base tier=quick mode=func timeout=2400 desc="single_shot_open_in_place_detached == setup_receiver then open_in_place_detached, Base mode: identical Result (Ok with the same plaintext, DecapError for a bad encapsulated key, OpenError for a bad tag) on the honest message and on arbitrary adversarial (enc, ciphertext, tag); the honest message opens to the plaintext" bounds="all RNG outputs, skR, delivered enc/ct/tag; info 0..=2 B, plaintext 0..=3 B, aad 0..=2 B; model suite with ideal AEAD; unwind 20"
 open_equiv_harness!(c14_open_equiv_base, 0);
 //@h name=c14_open_equiv_authpsk tier=quick mode=func timeout=2400 desc="same in AuthPsk mode" bounds="as Base plus all skS, 1-byte psk and psk_id"
 open_equiv_harness!(c14_open_equiv_authpsk, 3);
@@ -170,7 +170,7 @@ open_equiv_harness!(c14_open_equiv_authpsk, 3);
 macro_rules! open_alloc_equiv_harness {
     ($name:ident, $wire:expr) => {
         #[kani::proof]
-        #[kani::unwind(34)]
+        #[kani::unwind(20)]
         #[kani::stub(zeroize::optimization_barrier, noop_barrier)]
         pub fn $name() {
             const W: usize = $wire;
@@ -193,16 +193,16 @@ macro_rules! open_alloc_equiv_harness {
         }
     };
 }
-//@h name=c14_open_alloc_equiv_w0 tier=quick mode=func timeout=1200 desc="single_shot_open == setup_receiver then open on an EMPTY ciphertext and an arbitrary encapsulated key: same error (DecapError when decapsulation fails, else OpenError)" bounds="all skR, enc; wire length 0; model suite; unwind 34"
+//@h name=c14_open_alloc_equiv_w0 tier=quick mode=func timeout=1200 desc="single_shot_open == setup_receiver then open on an EMPTY ciphertext and an arbitrary encapsulated key: same error (DecapError when decapsulation fails, else OpenError)" bounds="all skR, enc; wire length 0; model suite; unwind 20"
 open_alloc_equiv_harness!(c14_open_alloc_equiv_w0, 0);
 //@h name=c14_open_alloc_equiv_w15 tier=quick mode=func timeout=1200 desc="same for a 15-byte ciphertext (one byte short of a tag)" bounds="wire length 15, contents symbolic"
 open_alloc_equiv_harness!(c14_open_alloc_equiv_w15, 15);
 //@h name=c14_open_alloc_equiv_w18 tier=quick mode=func timeout=1200 desc="same for an 18-byte ciphertext (garbage with room for a tag)" bounds="wire length 18, contents symbolic"
 open_alloc_equiv_harness!(c14_open_alloc_equiv_w18, 18);
 
-//@h name=c14_seal_alloc_equiv tier=quick mode=func timeout=1800 desc="single_shot_seal (allocating) == setup_sender then seal with the same randomness: same enc and ciphertext bytes or same error" bounds="all RNG outputs, pkR; plaintext length 2 (contents symbolic), aad 0..=1 B; Base mode; unwind 34"
+//@h name=c14_seal_alloc_equiv tier=quick mode=func timeout=1800 desc="single_shot_seal (allocating) == setup_sender then seal with the same randomness: same enc and ciphertext bytes or same error" bounds="all RNG outputs, pkR; plaintext length 2 (contents symbolic), aad 0..=1 B; Base mode; unwind 20"
 #[kani::proof]
-#[kani::unwind(34)]
+#[kani::unwind(20)]
 #[kani::stub(zeroize::optimization_barrier, noop_barrier)]
 pub fn c14_seal_alloc_equiv() {
     let bytes: [u8; RNG_CAP] = kani::any();
